@@ -51,7 +51,7 @@ class C16(Check):
     pid = "C16"
     required_labels = ["select/x", "select/fields", "select/weights", "concat/x", "pickle/x", "dict/x", "evidence_carried"]
     stubs = ["every cell of every field is a distinct symbolic variable; masks and index arrays have symbolic entries"]
-    outside = ["torch / jax namespaces (C15)", "HDF5 save/load (C13)"]
+    outside = ["torch / jax namespaces (C15)", "HDF5 save/load (C13)", "empty selections (a weighted set with zero rows raises in NumPy as well)"]
     bounds = {"quick": {"N": 3, "d": 2, "sequence_length": 2}, "thorough": {"N": 4, "d": 2, "sequence_length": 3}}
 
     SEQS_QUICK = [
@@ -142,6 +142,9 @@ class C16(Check):
             return out, r
         if kind == "mask":
             m = sx.Array(np.array([z3.Bool(f"m{step}_{i}") for i in range(n)], dtype=object), sx.bool)
+            # an empty selection of a weighted set raises ValueError in NumPy too
+            # (max of a zero-size array); non-empty selections are the claim
+            ctx.add_assume(z3.Or(*[z3.Bool(f"m{step}_{i}") for i in range(n)]))
             out = cur[m]
             keep = [ctx.branch(z3.Bool(f"m{step}_{i}")) for i in range(n)]
             return out, ref.select(lambda rows: [r for r, k in zip(rows, keep) if k])
